@@ -36,13 +36,16 @@ type Case struct {
 	Desc    string `json:"desc"`
 	// Source: the concrete type of the reader NewValue is given (hio.SourceKinds)
 	Source string `json:"source,omitempty"`
+	// EOFWith: the value is the last thing in the stream (no trailer) and the
+	// reader hands out its last bytes together with io.EOF, as io.Reader allows
+	EOFWith bool `json:"eofwith,omitempty"`
 }
 
 func valueOpts() gen.ValueOpts {
 	to := gen.TypeOpts{Depth: 3, Width: 3,
 		Leaves: []ref.Kind{ref.KInt8, ref.KUint8, ref.KInt16, ref.KUint16, ref.KInt32, ref.KUint32, ref.KInt64, ref.KUint64,
 			ref.KFloat32, ref.KFloat64, ref.KBool, ref.KString, ref.KString, ref.KValue, ref.KValue, ref.KValue, ref.KVoid, ref.KObject},
-		MapKeys: gen.AllScalars, Structs: true, Tuples: true, Maps: true, Lists: true, Template: true, ZeroMem: true, CompositeKeys: true}
+		MapKeys: gen.AllScalars, Structs: true, Tuples: true, Maps: true, Lists: true, Template: true, ZeroMem: true, CompositeKeys: true, Wide: true}
 	return gen.ValueOpts{MaxLen: 4, DynDepth: 3, DynTypes: to, LongRaw: true, LongList: true}
 }
 
@@ -52,13 +55,17 @@ func genCase(t *rapid.T) Case {
 	if len(desc) > 400 {
 		desc = desc[:400] + "..."
 	}
-	return Case{
+	c := Case{
 		Hex:     hex.EncodeToString(ref.EncodeDyn(d)),
 		Trailer: hex.EncodeToString(rapid.SliceOfN(rapid.Byte(), 0, 8).Draw(t, "trailer")),
 		Chunks:  gen.FragPlan().Draw(t, "plan").Chunks,
 		Source:  rapid.SampledFrom(hio.SourceKinds).Draw(t, "source"),
 		Desc:    desc,
 	}
+	if rapid.IntRange(0, 4).Draw(t, "eofwith") == 0 {
+		c.EOFWith, c.Trailer, c.Source = true, "", "frag"
+	}
+	return c
 }
 
 func dynDepth(d ref.Dyn) (depth int, dynInside bool, strInside bool) {
@@ -137,7 +144,7 @@ func checkCase(c Case) error {
 	if err := v.Write(rec); err != nil || !bytes.Equal(rec.Bytes(), b) {
 		return vt.Violationf(cls+":layout:plain-writer", "encoding of %s into a plain io.Writer: error %v\n got  %x\n want %x", c.Desc, err, rec.Bytes(), b)
 	}
-	r, consumed := hio.Source(c.Source, append(append([]byte{}, b...), trailer...), c.Chunks, false)
+	r, consumed := hio.Source(c.Source, append(append([]byte{}, b...), trailer...), c.Chunks, c.EOFWith)
 	v2, err := value.NewValue(r)
 	if err != nil {
 		return vt.Violationf(cls+":decode-error", "NewValue rejects the encoding of %s: %v", c.Desc, err)
